@@ -240,10 +240,43 @@ func (s *c07Status) SetStatus(rcptTo string, err error) {
 	}
 }
 
+// c07Routed puts the routing blocks of the case (vdmarc.Case.Hops) in front of the storage target:
+// nested pipelines without DMARC of their own, the way `deliver_to &local_routing` is set up.  They
+// share the message's metadata with the pipeline that evaluates DMARC.
+func c07Routed(c *vdmarc.Case, tgt module.DeliveryTarget) module.DeliveryTarget {
+	final := tgt
+	for i := len(c.Hops) - 1; i >= 0; i-- {
+		var global, rcpt []module.Check
+		switch c.Hops[i] {
+		case "c":
+			global = []module.Check{&c07Check{name: fmt.Sprintf("hop%d", i)}}
+		case "m":
+			global = []module.Check{&c07Check{name: fmt.Sprintf("hop%d", i)}}
+			rcpt = []module.Check{&c07Check{name: fmt.Sprintf("hop%dr", i), stage: 'r'}}
+		case "f":
+			global = []module.Check{&c07Check{name: fmt.Sprintf("hop%dflag", i),
+				res: modconfig.FailAction{Quarantine: true}.Apply(module.CheckResult{Reason: errors.New("flagged by a check of the routing block")})}}
+		}
+		final = &MsgPipeline{
+			msgpipelineCfg: msgpipelineCfg{
+				globalChecks: global,
+				perSource:    map[string]sourceBlock{},
+				defaultSource: sourceBlock{
+					perRcpt:     map[string]*rcptBlock{},
+					defaultRcpt: &rcptBlock{checks: rcpt, targets: []module.DeliveryTarget{final}},
+				},
+			},
+			Log:      log.Logger{Out: log.NopOutput{}},
+			Resolver: &mockdns.Resolver{},
+		}
+	}
+	return final
+}
+
 // c07TimedPipeline builds the pipeline of a case with a timing: up to three check blocks, each with
 // one check reporting its share of the authentication results, the quarantining check in block
 // QBlock, the resolver on virtual time.
-func c07TimedPipeline(c *vdmarc.Case, tgt *testutils.Target) (*MsgPipeline, *c07Clock, *c07Resolver, bool) {
+func c07TimedPipeline(c *vdmarc.Case, tgt module.DeliveryTarget) (*MsgPipeline, *c07Clock, *c07Resolver, bool) {
 	all := c.AuthResults()
 	clock := newC07Clock()
 	res := &c07Resolver{Resolver: &mockdns.Resolver{Zones: c.MockZones()}, clock: clock, c: c}
@@ -338,7 +371,7 @@ func c07Reply(out *vh.Out, c *vdmarc.Case, seedOK bool) {
 	var timedRes *c07Resolver
 	if c.Blocks != nil {
 		var ok bool
-		p, clock, timedRes, ok = c07TimedPipeline(c, &tgt)
+		p, clock, timedRes, ok = c07TimedPipeline(c, c07Routed(c, &tgt))
 		if !ok {
 			out.Note("ill-formed timing in op: " + op)
 			return
@@ -366,7 +399,7 @@ func c07Reply(out *vh.Out, c *vdmarc.Case, seedOK bool) {
 				defaultSource: sourceBlock{
 					checks:      again,
 					perRcpt:     map[string]*rcptBlock{},
-					defaultRcpt: &rcptBlock{checks: again, targets: []module.DeliveryTarget{&tgt}},
+					defaultRcpt: &rcptBlock{checks: again, targets: []module.DeliveryTarget{c07Routed(c, &tgt)}},
 				},
 				doDMARC: true,
 			},
@@ -496,6 +529,11 @@ func c07Reply(out *vh.Out, c *vdmarc.Case, seedOK bool) {
 				out.Violation("C07/earlier-quarantine-lost", op, "message flagged by an earlier check arrives unflagged")
 			}
 		}
+		if bad == "accept" && e.Fate == "quarantine" && len(c.Hops) > 0 {
+			// accepted, evaluated, but the storage behind the routing blocks sees no flag
+			out.Violation("C07/quarantine-flag-lost-behind-routing-block", op, fmt.Sprintf("pipeline: %s after %d routing block(s); expected %s: %s", obs, len(c.Hops), e.Fate, e.Why))
+			bad = ""
+		}
 		if bad != "" {
 			out.Violation("C07/reply-"+e.Fate+"-expected-got-"+bad, op, fmt.Sprintf("pipeline: %s; expected %s: %s", obs, e.Fate, e.Why))
 		}
@@ -540,6 +578,17 @@ func c07Reply(out *vh.Out, c *vdmarc.Case, seedOK bool) {
 				out.Stat("reply.check.referenced-by-later-blocks-too")
 			}
 		}
+	}
+	if c.Hops != nil {
+		out.Stat(fmt.Sprintf("reply.routing-blocks.%d", len(c.Hops)))
+		for _, h := range c.Hops {
+			out.Stat("reply.routing-block." + h)
+		}
+		if e.CheckFate {
+			out.Stat("reply.routing-blocks.oracle." + e.Fate)
+		}
+	} else {
+		out.Stat("reply.routing-blocks.0")
 	}
 	if c.Blocks != nil {
 		nb, maxStage := 0, 0
@@ -593,6 +642,9 @@ func TestVerifC07Reply(t *testing.T) {
 	for _, c := range vdmarc.WrapCorpus() {
 		c07Reply(out, c, seedOK)
 	}
+	for _, c := range vdmarc.HopCorpus() {
+		c07Reply(out, c, seedOK)
+	}
 	n := vh.N(20000) / 4
 	for i := 0; i < n; i++ {
 		c := vdmarc.Random(r)
@@ -604,6 +656,10 @@ func TestVerifC07Reply(t *testing.T) {
 			// the checks hand their results over the way the stock checks do: at other stages, with a
 			// reason and no action of their own, with an action of their own, with header fields
 			vdmarc.AddWraps(r, c)
+		}
+		if i%3 != 2 {
+			// the stock shape: the storage sits behind routing blocks (nested pipelines)
+			vdmarc.AddHops(r, c)
 		}
 		c07Reply(out, c, seedOK)
 	}
